@@ -70,6 +70,9 @@ func (w *world) verifyFunc(con *Contract, fn *ssa.Function, mode string, variant
 			panic(r)
 		}
 	}()
+	if con.Broken != "" {
+		x.fail("%s", con.Broken)
+	}
 	if fn == nil || len(fn.Blocks) == 0 {
 		x.fail("no SSA body for %s", con.Target)
 	}
